@@ -751,7 +751,8 @@ class Truncate(Family):
     name = 'truncate'
     rule = ('well-formed files x every truncation point 0..len, and every content section length perturbed by '
             '+-1..3, 0, -1, abc, 1_0, 2^70; content lines that are a header behind a non-grammar prefix, intact and with the '
-            'length shortened to end right before them; non-trivial = the cut falls strictly inside the file / the perturbed '
+            'length shortened to end right before them; writer files under every non-ASCII-transparent catalogue codec '
+            '(escape characters before newlines) cut at every byte; non-trivial = the cut falls strictly inside the file / the perturbed '
             'length differs from the true one; distinct by resulting bytes')
 
     def cases(self, tier, rng, prop_id):
@@ -1047,6 +1048,7 @@ class Order(Family):
             'grammar rejects; every sequence again with tolerated blank lines before the last (or every) header; '
             'histories of 2-4 files read one after the other in one process (the verdict on the last one is compared); '
             'walks rendered with spec-documented metadata and declared counts that agree / disagree with the real ones; '
+            'other stream kinds (buffered, real file, document starting inside the stream); '
             'non-trivial = length >= 2; distinct by id sequence, blank-line pattern and history')
 
     def cases(self, tier, rng, prop_id):
@@ -1304,7 +1306,8 @@ class HeaderFam(Family):
     rule = ('header lines "#.change: <s>" and "#.change: k=v, <s>" for every option string s over a 16-symbol alphabet '
             '(letters, digits, each punctuation character of the grammar, space, tab, #, :, +, a non-ASCII byte) up to '
             'a bounded length (exhaustive), structural variants of the "#..name:" part, random longer strings, every non-ASCII '
-            'character that Unicode case folding / normalisation / digit classes equate with an ASCII one; each '
+            'character that Unicode case folding / normalisation / digit classes equate with an ASCII one, valid and '
+            'one-junk-byte lines placed across the buffer edge of a BufferedReader / real file; each '
             'placed after a valid main header; non-trivial = the string contains "="; distinct by line')
 
     PREFIX = b'#diffx: version=1.0\n'
@@ -1476,7 +1479,8 @@ class Chunk(Family):
     name = 'chunk'
     rule = ('well-formed files whose first header is padded by p extra option bytes (p = 0..2*96, shifting every later '
             'header through every alignment) x read-ahead block sizes 1..2*96 and larger than the file: a seeded sample '
-            'of the grid plus the diagonal in quick, the full grid in thorough; non-trivial = block size != 96; '
+            'of the grid plus the diagonal in quick, the full grid in thorough; files incl. CRLF headers with CR-rich content '
+            '(UTF-16 CRLF, lone CRs), a 400-byte line; non-trivial = block size != 96; '
             'distinct by (file, padding, block)')
 
     def cases(self, tier, rng, prop_id):
@@ -1650,6 +1654,7 @@ class Nesting(Family):
             'allows, each container declaring no encoding or one of 3 marker codecs, each followed by a text section '
             '(with and without its own encoding) whose text encodes differently under every codec involved; plus every text '
             'codec of the interpreter catalogue declared on a change / file / section with an all-printable-ASCII text; '
+            'sibling containers under codec pairs that give DIFFERENT texts IDENTICAL bytes (EBCDIC variants); '
             'non-trivial = at least one file -> change or sibling transition after a declaration; distinct by history')
 
     def cases(self, tier, rng, prop_id):
